@@ -296,7 +296,9 @@ pub fn c03() -> JobCheck {
             max_input: 500,
             ..Profile::base()
         },
-        monitors: Monitors { routing: true, ..Monitors::default() },
+        // `sinks`: that equal keys from both inputs of a join meet on one replica is judged through
+        // the join results (the pre-aggregated side of a keyed join is not traceable element by element)
+        monitors: Monitors { routing: true, sinks: true, ..Monitors::default() },
         k: (3, 4),
         cases: (300, 7000),
         nontrivial: |_f, _j, _c, run| {
@@ -360,7 +362,7 @@ pub fn c04() -> JobCheck {
 pub fn c05() -> JobCheck {
     JobCheck {
         id: "C05",
-        profile: || Profile { name: "c05", w_replay: 12, w_iterate: 5, w_window: 12, w_keyed_agg: 12, ..Profile::base() },
+        profile: || Profile { name: "c05", w_replay: 12, w_iterate: 5, w_window: 12, w_keyed_agg: 12, join_in_loop_quarters: 1, ..Profile::base() },
         monitors: Monitors { grammar: true, per_iteration: true, alignment: true, ..Monitors::default() },
         k: (2, 3),
         cases: (300, 7000),
@@ -407,6 +409,7 @@ pub fn c08() -> JobCheck {
             w_route: 1,
             w_window: 0,
             max_input: 500,
+            join_in_loop_quarters: 2,
             ..Profile::base()
         },
         monitors: Monitors { sinks: true, per_iteration: true, ..Monitors::default() },
